@@ -145,7 +145,7 @@ def h_filter(k: int, v: str, keep_c: bool, keep_w: bool) -> bool:
 
 
 # ----------------------------------------------------------------------------------------------- lexing is a pure function of the text (no state carried from one call to the next)
-CHARS = ["a", "\n", " ", "\r", "\x0c", ";"]
+CHARS = ["a", "\n", " ", "\r", "\x0c", ";", "\ufeff"]      # incl. a byte-order mark: it is a character of the text like any other
 FIX_A0 = param("fix_a0", None)
 
 
@@ -206,4 +206,12 @@ def real_h_lex_twice(a0, a1, a2, a3, b0, b1, mode):
         res.append([(t.location.line, t.location.column, t.value) for t in lex(lexer, code, False)])
     # the first call of a process is the reference for its text; a later call on the same text must agree
     diff = [i for i, code in enumerate(seq) if code == seq[0] and res[i] != first]
-    return {"reproduced": bool(diff), "sig": "lex:result-depends-on-earlier-calls", "detail": f"real C lexer, texts {seq!r}: call #{diff[0] if diff else None} differs from the first call on the same text: {res}"}
+    if diff:
+        return {"reproduced": True, "sig": "lex:result-depends-on-earlier-calls", "detail": f"real C lexer, texts {seq!r}: call #{diff[0]} differs from the first call on the same text: {res}"}
+    # not a purity problem: are the positions those of the text at all? (own computation from the lexer's offsets)
+    for i, code in enumerate(seq):
+        nls = [k for k, c in enumerate(code) if c == "\n"]
+        exp = [oracle(off, nls) + (val,) for off, ty, val in lexer.get_tokens_unprocessed(code) if val != "" and not ((ty == PT.Text or ty == PT.Text.Whitespace) and val.isspace())]
+        if res[i] != exp:
+            return {"reproduced": True, "sig": "lex:positions-differ-from-the-text", "detail": f"real C lexer on {code!r}: lex() gives {res[i]}, the text gives {exp}"}
+    return {"reproduced": False, "sig": "lex:", "detail": f"real C lexer, texts {seq!r}: {res}"}
